@@ -1143,11 +1143,14 @@ fn c11(tier: &str, thorough: bool) -> i32 {
     // all pairs of chain-cell corruptions (see C05) that permissive open accepts x every script of length 1
     if !thorough {
         // a V4 file with streams (64-bit stream lengths): field-aware corruptions only in the quick tier
-        let st = crate::e5::sweep_base(ctx, crate::e5::Mode::Mutating(1), "fields:tree-v4", thorough, false, 16);
-        ctx.note(format!("base fields:tree-v4: field-aware single corruptions: cases={} scripts={} problems={} worker restarts={}", st.cases, st.scripts, st.problems, st.restarts));
-        cases += st.cases;
-        scripts += st.scripts;
-        ctx.add("worker_restarts", st.restarts);
+        // ... and a V3 file whose single FAT sector is exactly full (128 sectors)
+        for id in ["fields:tree-v4", "fields:fat128-v3"] {
+            let st = crate::e5::sweep_base(ctx, crate::e5::Mode::Mutating(1), id, thorough, false, 16);
+            ctx.note(format!("base {}: field-aware single corruptions: cases={} scripts={} problems={} worker restarts={}", id, st.cases, st.scripts, st.problems, st.restarts));
+            cases += st.cases;
+            scripts += st.scripts;
+            ctx.add("worker_restarts", st.restarts);
+        }
     }
     let chain_bases: Vec<&str> = if thorough { vec!["tree-v3", "mixed-v3", "minifull-v3", "tree-v4"] } else { vec!["tree-v3"] };
     for b in chain_bases {
